@@ -1,5 +1,5 @@
 (* Props/C08.v — ReadWriteChain reads like std::io::Chain: all of first, then all of second. *)
-From FB Require Import Sem.Base Sem.Lemmas Model.Adapters Model.Pinned Spec.StdAdapters Facets.Adapters.
+From FB Require Import Sem.Base Sem.Lemmas Model.Adapters Model.Serve Model.Pinned Spec.StdAdapters Facets.Adapters Facets.C07 Facets.Streams.
 Open Scope Z_scope.
 
 (* one read = one read of std::io::Chain (Spec/StdAdapters.v, a transcription of rust-src held to the real thing by the
@@ -36,7 +36,36 @@ Theorem c08_pinned_refuted :
   three_reads (chain_read (lr []) (lr [])) (chain_new [65; 66] [99; 100]) = [[]; [65; 66]; [99; 100]].
 Proof. repeat split; vm_compute; reflexivity. Qed.
 
+(* stream level: for ANY two readers that each deliver a fixed remaining sequence in order (Cursor, &[u8], a socket as a chunk
+   schedule, a FixedBuf, another chain), the chain delivers remaining(first) ++ remaining(second) in order: every read hands out a
+   prefix of what is left, makes progress on a non-empty destination while anything is left, and never fails *)
+Theorem c08_stream : forall S1 S2 (Src1 : Reader S1) rem1 ok1 (Src2 : Reader S2) rem2 ok2,
+  prefix_source Src1 rem1 ok1 -> prefix_source Src2 rem2 ok2 ->
+  prefix_source (CH2 Src1 Src2) (rem_ch rem1 rem2) (ok_ch ok1 ok2).
+Proof. exact @chain_prefix_source. Qed.
+
+(* hence: reading the chain (through a take with limit n) with ANY schedule of destination lengths, zero-length ones anywhere,
+   until Ok(0) on a non-empty destination, yields exactly the first min(n, total) bytes of first ++ second and leaves the rest *)
+Theorem c08_all_of_first_then_second : forall S1 S2 (Src1 : Reader S1) rem1 ok1 (Src2 : Reader S2) rem2 ok2,
+  prefix_source Src1 rem1 ok1 -> prefix_source Src2 rem2 ok2 ->
+  forall chk fuel dests n (s1 : S1) (s2 : S2), ok1 s1 -> ok2 s2 -> 0 <= n -> Forall (fun d => 0 <= d) dests ->
+  let all := rem1 s1 ++ rem2 s2 in
+  let n' := Z.min n (zlen all) in
+  (length dests + Z.to_nat n' + 2 <= fuel)%nat ->
+  exists tk, drain_gen chk (CH2 Src1 Src2) fuel dests [] (take_new (chain_new s1 s2) n) = (firstn (Z.to_nat n') all, DrOk, tk) /\
+    rem_ch rem1 rem2 (t_rw tk) = skipn (Z.to_nat n') all /\ t_rem tk = n - n' /\ ok_ch ok1 ok2 (t_rw tk).
+Proof. exact @take_chain_stream. Qed.
+
+(* non-vacuity: byte lists are such readers; zero-length destinations in the schedule; the limit beyond the total *)
+Example c08_stream_ex :
+  prefix_source list_rd (fun rest => rest) (fun _ => True) /\
+  (fst (fst (drain_gen true (CH2 list_rd list_rd) 40 [0; 2; 0; 0; 5; 1] [] (take_new (chain_new [65; 66; 67] [99; 100]) 1000)))
+    = [65; 66; 67; 99; 100])%list.
+Proof. split; [exact list_rd_source|vm_compute; reflexivity]. Qed.
+
 Print Assumptions c08_sim.
+Print Assumptions c08_stream.
+Print Assumptions c08_all_of_first_then_second.
 Print Assumptions c08_second_waits.
 Print Assumptions c08_first_never_again.
 Print Assumptions c08_pinned_refuted.
